@@ -75,6 +75,20 @@ func init() {
 	registerSkeleton("C08", []string{"C08"}, "net/scion", "Quic",
 		"baseConn.readPkt", "serverConn.ReadFrom", "clientConn.ReadFrom")
 
+	// second wave: codec leaves of the NTS and NTS-KE wire formats, listener start-up
+	registerSkeleton("C10", []string{"C10", "C14", "C11"}, "net/nts", "NtsExt",
+		"extHdr.pack", "extHdr.unpack", "UniqueIdentifier.pack", "UniqueIdentifier.unpack", "newID",
+		"Cookie.pack", "Cookie.unpack", "CookiePlaceholder.pack", "CookiePlaceholder.unpack",
+		"Authenticator.pack", "Authenticator.unpack")
+	registerSkeleton("C20", []string{"C20", "C14"}, "net/ntske", "NtskeRec",
+		"RecordHdr.pack", "packsimple", "packheader", "ExchangeMsg.Pack", "ExchangeMsg.AddRecord",
+		"NextProto.pack", "End.pack", "Server.pack", "Port.pack", "Cookie.pack", "Warning.pack", "Error.pack", "Algorithm.pack",
+		"AcceptTLSConn", "setBit", "hasBit")
+	registerSkeleton("C06", []string{"C06", "C07", "C09"}, "core/server", "ServerStart",
+		"StartIPServer", "StartSCIONServer", "StartSCIONDispatcher")
+	registerSkeleton("C20", []string{"C20", "C14"}, "core/server", "NtskeSrvStart",
+		"StartNTSKEServerIP", "StartNTSKEServerSCION")
+
 	registerFact(func(repo string, parsed map[string][]*ast.File, fset *token.FileSet) {
 		out := "/verif/lean/ScionTime/Gen"
 		if f := flag.Lookup("out"); f != nil {
